@@ -59,6 +59,8 @@ class Engine:
         self.notes = []
         self.unknown_branch = False
         self.concretised = 0
+        self.decided = {}
+        self._keep = []
 
     def fresh(self, name, sort="int"):
         self.fresh_n += 1
@@ -99,6 +101,17 @@ class Engine:
             return True
         if z3.is_false(c):
             return False
+        base, pol = (c.arg(0), False) if z3.is_not(c) else (c, True)
+        k = base.get_id()
+        if k in self.decided:
+            self.stats["branch_cache_hits"] += 1
+            return self.decided[k] == pol
+        self._keep.append(base)
+        d = self._branch(c)
+        self.decided[k] = (d == pol)
+        return d
+
+    def _branch(self, c):
         if self.pos < len(self.prefix):
             d = self.prefix[self.pos]
         else:
